@@ -94,6 +94,8 @@ type Client struct {
 	address           net.Addr
 	runner            runner.AttachedRunner
 	launched          bool
+	negotiatedPlugins PluginSet
+	negotiated        bool
 	client            ClientProtocol
 	protocol          Protocol
 	logger            hclog.Logger
@@ -117,6 +119,16 @@ type Client struct {
 
 	grpcMuxerOnce sync.Once
 	grpcMuxer     *grpcmux.GRPCClientMuxer
+}
+
+// pluginSet returns the plugin set to dispense from: the one registered under
+// the negotiated version, or the configured one when nothing was negotiated
+// (reattach).
+func (c *Client) pluginSet() PluginSet {
+	if c.negotiated {
+		return c.negotiatedPlugins
+	}
+	return c.config.Plugins
 }
 
 // NegotiatedVersion returns the protocol version negotiated with the server.
@@ -907,10 +919,12 @@ func (c *Client) Start() (addr net.Addr, err error) {
 			return addr, err
 		}
 
-		// set the Plugins value to the compatible set, so the version
-		// doesn't need to be passed through to the ClientProtocol
-		// implementation.
-		c.config.Plugins = pluginSet
+		// remember the compatible set, so the version doesn't need to be
+		// passed through to the ClientProtocol implementation. It is kept on
+		// the client, not written into the caller's ClientConfig: a config
+		// shared with a later client would otherwise offer its legacy
+		// ProtocolVersion (0 if unset) bound to this negotiated set.
+		c.negotiatedPlugins, c.negotiated = pluginSet, true
 		c.negotiatedVersion = version
 		c.logger.Debug("using plugin", "version", version)
 
